@@ -180,6 +180,19 @@ def evaluate(case):
                 if strip_annot(str(t.fmt)) != before_cols:
                     ctx.f.append(("empty_fmt_changes_columns", f"t.fmt = {op[1]!r}: {before_cols!r} -> {str(t.fmt)!r}"))
                 ctx.info.add("op_setfmt_empty")
+            elif kind == "setfmt_bad":
+                # a format the table must reject (unknown field / unknown modifier), carrying a limits section: the table
+                # stays exactly as it was
+                try:
+                    t.fmt = op[1]
+                    rejected = False
+                except Exception:   # noqa
+                    rejected = True
+                if rejected:
+                    ctx.info.add("op_rejected_fmt")
+                    Rn = render(t)
+                    if Rn != R:
+                        ctx.f.append(("rejected_fmt_changes_rendering", f"t.fmt = {op[1]!r} (rejected)\n{R[0]}\n---\n{Rn[0]}"))
             elif kind == "remove":
                 vis = strip_annot(str(t.fmt)).split(",")
                 names = {c.split(":")[0].split("/")[0].rstrip("!") for c in vis}
@@ -192,7 +205,7 @@ def evaluate(case):
             ctx.f.append(("operation_raises_%s_%s" % (kind, type(e).__name__), f"{label}: {e}"))
             break
         nops += 1
-        R = verify(ctx, P, case, t, bool(op[-1]) if kind != "setfmt_raw" else False, label)
+        R = verify(ctx, P, case, t, bool(op[-1]) if kind not in ("setfmt_raw", "setfmt_bad") else False, label)
     return Outcome(ctx.nt, sorted(ctx.info), ctx.f, evals=2 + 3 * nops)
 
 
@@ -214,10 +227,16 @@ def st_case(draw):
                 mod = draw(st.sampled_from([None, "val", "name", "full"]))
             return {"f": fi, "min": mn, "max": mx, "brk": draw(st.integers(0, 3)) == 0, "mod": mod,
                     "hidden": False}
-        return [one() for _ in range(draw(st.integers(1, 4)))]
+        cols = [one() for _ in range(draw(st.integers(1, 4)))]
+        if draw(st.integers(0, 2)) == 0:
+            # the same field shown twice, once as break-by column and once not
+            c = dict(draw(st.sampled_from(cols)))
+            c["brk"] = not c["brk"]
+            cols.insert(draw(st.integers(0, len(cols))), c)
+        return cols
     ops = []
     for _ in range(draw(st.integers(0, 6))):
-        k = draw(st.sampled_from(["print", "print", "setfmt", "setfmt", "setfmt_raw", "remove"]))
+        k = draw(st.sampled_from(["print", "print", "setfmt", "setfmt", "setfmt_raw", "remove", "setfmt_bad"]))
         flag = draw(st.booleans())
         if k == "print":
             ops.append(["print", draw(st.sampled_from(["whole_nc", "whole_color", "lines_nc"])), flag])
@@ -228,8 +247,27 @@ def st_case(draw):
             ops.append(["setfmt", {"cols": cols, "limits": lim}, flag])
         elif k == "setfmt_raw":
             ops.append(["setfmt_raw", draw(st.sampled_from(["", ";", ";;"])), flag])
+        elif k == "setfmt_bad":
+            f0 = case["fields"][0]
+            bad_cols = draw(st.sampled_from(["nosuch", f0 + ",nosuch:3", f0 + "/nosuchmod", "nosuch!:2-5," + f0, f0 + ":2,zz"]))
+            lim = draw(st.sampled_from([";1:1", ";0:2", ";2:0", ";*", ";0:0", ""]))
+            ops.append(["setfmt_bad", bad_cols + lim, flag])
         else:
             ops.append(["remove", draw(st.lists(st.sampled_from(case["fields"] + ["nosuch"]), max_size=2)), flag])
+    if nf >= 2 and draw(st.integers(0, 5)) == 0 and case["records"]:
+        # a field shown twice - first as break-by column, later as ordinary one -, limits that count the break lines, a print,
+        # then the removal of that field (the set of visible records changes with the break lines)
+        fa, fb = draw(st.permutations(list(range(nf))))[:2]
+        moda = draw(st.sampled_from([None, "val", "name", "full"])) if case["fields"][fa] in case["enums"] else None
+        modb = draw(st.sampled_from([None, "val", "name", "full"])) if case["fields"][fb] in case["enums"] else None
+        first_brk = draw(st.sampled_from([True, True, False]))
+        case["cols"] = [{"f": fa, "min": None, "max": None, "brk": first_brk, "mod": moda, "hidden": False},
+                        {"f": fb, "min": 1, "max": 30, "brk": False, "mod": modb, "hidden": False},
+                        {"f": fa, "min": 6, "max": 6, "brk": not first_brk, "mod": moda, "hidden": False}]
+        case["limits"] = [draw(st.integers(1, 4)), draw(st.sampled_from([0, 0, 1]))]
+        case["limits_via"] = "fmt"
+        case["skip"] = []
+        ops = [["print", "whole_nc", True], ["remove", [case["fields"][fa]], draw(st.booleans())]] + ops[:2]
     case["ops"] = ops
     case["fresh_setter"] = draw(st.booleans())
     return case
@@ -247,7 +285,7 @@ def parts(tier):
     k = 1 if tier == "quick" else 40
     return [
         Part("regressions", evaluate, enumerate=regression_cases, exhaustive=True),
-        Part("life_cycles", evaluate, strategy=st_case, examples=3000 * k),
+        Part("life_cycles", evaluate, strategy=st_case, examples=5000 * k),
     ]
 
 
